@@ -46,7 +46,7 @@ def canary_runs(rng, tier):
         for pol in POLICIES:
             for th in (1, 2, 4, 8):
                 for guard in (0, 1):
-                    for k in range(2):
+                    for k in range(4):
                         cfg = SIZE_CONFIGS[rng.below(len(SIZE_CONFIGS))]
                         out.append(([rng.below(1 << 30), 'canary', 10 + rng.below(10), 60 + rng.below(60), f'--pika:threads={th}',
                                      f'--pika:scheduler={pol}', f'--pika:ini=pika.stacks.use_guard_pages={guard}'] + cfg +
@@ -58,7 +58,7 @@ def canary_runs(rng, tier):
             for th in ((2, 4) if i % 2 == 0 else (1, 8)):
                 guard = (i + th) % 2
                 cfg = SIZE_CONFIGS[(i + th) % len(SIZE_CONFIGS)]
-                out.append(([rng.below(1 << 30), 'canary', 6, 60, f'--pika:threads={th}', f'--pika:scheduler={pol}',
+                out.append(([rng.below(1 << 30), 'canary', 8, 80, f'--pika:threads={th}', f'--pika:scheduler={pol}',
                              f'--pika:ini=pika.stacks.use_guard_pages={guard}'] + cfg +
                             ([f'--pika:ini=pika.thread_queue.max_terminated_threads=1'] if i % 3 == 0 else []),
                             rng.choice([0, 100])))
@@ -185,7 +185,7 @@ def main():
         rp = json.load(open(replay))
         plan = [(rp['argv'], rp.get('perturb', 0))]
     else:
-        nswap = 20000 if tr == 'thorough' else 4000
+        nswap = 50000 if tr == 'thorough' else 10000
         plan = [([rng.below(1 << 30), 'swapdiff', nswap, 0], 0),
                 ([rng.below(1 << 30), 'fpprobe', 0, 0, '--pika:threads=1'], 0)] + canary_runs(rng, tr)
     tmo = 900 if tr == 'thorough' else 300
